@@ -38,6 +38,7 @@ def main() -> int:
         keyed = sorted(cases, key=lambda c: json.dumps([c["type"], c["opts"]["addl"], c["opts"]["aliname"]], sort_keys=True))
         last = None
         validator = None
+        inv_count: dict = {}
         for c in keyed:
             if not c["sdom"]:
                 skipped += 1
@@ -59,6 +60,21 @@ def main() -> int:
                     schema_err = None
                 except Exception as exc:
                     validator, schema_err = None, f"{type(exc).__name__}: {exc}"
+                # the explicit argument wins over the global setting: same schema with the setting inverted
+                if validator is not None and "additional_properties" in skw:
+                    from apischema import settings as _st
+
+                    _st.additional_properties = not skw["additional_properties"]
+                    try:
+                        schema2 = deserialization_schema(tp, **skw)
+                    except Exception as exc:
+                        schema2 = f"{type(exc).__name__}: {exc}"
+                    finally:
+                        _st.additional_properties = False
+                    if schema2 != schema:
+                        rep.violation(f"deserialization_schema({bridge.type_expr(c['type'])}, additional_properties={skw['additional_properties']}) "
+                                      f"changes with settings.additional_properties although the argument is explicit",
+                                      {"type": bridge.type_expr(c["type"]), "schema": schema, "with_inverted_setting": schema2})
             if validator is None:
                 rep.violation(f"deserialization_schema({bridge.type_expr(c['type'])}) raised {schema_err}",
                               {"type": bridge.type_expr(c["type"]), "opts": c["opts"]})
@@ -69,6 +85,22 @@ def main() -> int:
             real_schema = validator.is_valid(data)
             out = record.run_deserialize(u.ctx, tp, data, kw)
             real_deser = out["kind"] == "ok"
+            inv_count[skey] = inv_count.get(skey, 0) + 1
+            if "additional_properties" in kw and c["type"].get("k") in ("obj", "dunion", "union", "coll") \
+                    and (inv_count[skey] <= 4 or (not real_deser and inv_count[skey] % 7 == 0)):
+                # ... and the same acceptance by deserialize (the method cache is keyed by the resolved options)
+                from apischema import settings as _st
+
+                _st.additional_properties = not kw["additional_properties"]
+                try:
+                    out2 = record.run_deserialize(u.ctx, tp, data, kw)
+                finally:
+                    _st.additional_properties = False
+                if (out2["kind"] == "ok") != real_deser:
+                    rep.violation(f"deserialize({bridge.type_expr(c['type'])}, additional_properties={kw['additional_properties']}) "
+                                  f"{'accepts' if out2['kind'] == 'ok' else 'rejects'} {json.dumps(data)[:120]} once "
+                                  f"settings.additional_properties is inverted, although the argument is explicit",
+                                  {"type": bridge.type_expr(c["type"]), "data": c["data"], "opts": {k: v for k, v in c["opts"].items() if k != "ali"}})
             summary = {"type": bridge.type_expr(c["type"]), "type_enc": c["type"], "opts": {k: v for k, v in c["opts"].items() if k != "ali"},
                        "data": c["data"], "schema": schema, "schema_accepts": real_schema, "deserialize_accepts": real_deser,
                        "model_schema_accepts": c["saccept"], "model_conforms": c["expect"]["ok"]}
